@@ -68,18 +68,25 @@ namespace _details {
 template<typename Alloc, typename Awt, typename Fn, typename ... Args>
 with_allocator<Alloc,async<void> > callback_await_coro(Alloc &, Fn fn, Args ... args) noexcept {
     using RetVal = std::decay_t<awaiter_return_value<Awt> >;
+    //set once the outcome of the awaited operation has been handed to the callback
+    bool delivered = false;
     try {
         //constructed inside of the try block: when starting the awaited operation throws
         //(constructor of the awaitable, the factory passed as argument), the callback receives the exception
         Awt awt(std::forward<Args>(args)...);
         if constexpr(std::is_void_v<RetVal>) {
             co_await awt;
+            delivered = true;
             fn(await_result<void>{true});
         } else {
-            fn(await_result<RetVal>{&co_await awt});
+            auto *val = &co_await awt;
+            delivered = true;
+            fn(await_result<RetVal>{val});
         }
     } catch (...) {
-        fn(await_result<RetVal>{});
+        //an exception thrown by the callback itself is not an outcome of the operation
+        //(it is ignored as any result of a detached coroutine)
+        if (!delivered) fn(await_result<RetVal>{});
     }
 }
 
